@@ -20,6 +20,35 @@ import (
 // Root is the verification directory.
 var Root = "/verif"
 
+// OutRoot is where evidence and replay files go: Root, unless VERIF_OUT names
+// another directory (used when a seeded change is judged in a scratch worktree
+// in parallel with other runs; registered checks never set it).
+var OutRoot = func() string {
+	if d := os.Getenv("VERIF_OUT"); d != "" {
+		return d
+	}
+	return Root
+}()
+
+// RepoDir is the source tree under judgement: /repo, unless the wrapper was
+// started with VERIF_REPO (scratch worktree with a seeded change applied).
+var RepoDir = func() string {
+	if d := os.Getenv("VERIF_REPO"); d != "" {
+		return d
+	}
+	return "/repo"
+}()
+
+// GoEnv is the environment for go commands started by a driver (gxz, the
+// race-enabled worker): offline, and with the same module file the wrapper used.
+func GoEnv(extra ...string) []string {
+	fl := "GOFLAGS=-mod=mod"
+	if m := os.Getenv("VERIF_MODFILE"); m != "" {
+		fl += " -modfile=" + m
+	}
+	return append(append(os.Environ(), fl, "GOPROXY=off", "GOSUMDB=off", "GOTOOLCHAIN=local"), extra...)
+}
+
 // Finding is one entry of known_findings.json.
 type Finding struct {
 	Property string            `json:"property"`
@@ -83,7 +112,7 @@ func New(id, tier string) *Ctx {
 	}
 	c := &Ctx{ID: id, Tier: tier, Seed: seed, Scratch: scratch, Start: time.Now(), Level: "model_checking",
 		Extra: map[string]any{}, Actions: map[string]int64{}, knownHit: map[string]int{}}
-	os.RemoveAll(filepath.Join(Root, "replays", id)) // replay files of earlier runs are stale
+	os.RemoveAll(filepath.Join(OutRoot, "replays", id)) // replay files of earlier runs are stale
 	b, err := os.ReadFile(filepath.Join(Root, "known_findings.json"))
 	if err == nil {
 		var all []Finding
@@ -165,7 +194,7 @@ func (c *Ctx) Violation(sig map[string]string, what string, replay any) {
 	c.violations++
 	if c.printed < 8 || os.Getenv("VERIF_ALLSIG") != "" && c.sigSeen(sig) {
 		c.printed++
-		dir := filepath.Join(Root, "replays", c.ID)
+		dir := filepath.Join(OutRoot, "replays", c.ID)
 		os.MkdirAll(dir, 0o755)
 		c.replayN++
 		path := filepath.Join(dir, fmt.Sprintf("%s-%s-%d-%d.json", c.ID, c.Tier, c.Seed, c.replayN))
@@ -290,8 +319,8 @@ func (c *Ctx) Finish() {
 		ev["inconclusive"] = c.inconc
 	}
 	b, _ := json.MarshalIndent(ev, "", " ")
-	os.MkdirAll(filepath.Join(Root, "evidence"), 0o755)
-	if err := os.WriteFile(filepath.Join(Root, "evidence", c.ID+".json"), append(b, '\n'), 0o644); err != nil {
+	os.MkdirAll(filepath.Join(OutRoot, "evidence"), 0o755)
+	if err := os.WriteFile(filepath.Join(OutRoot, "evidence", c.ID+".json"), append(b, '\n'), 0o644); err != nil {
 		fmt.Fprintln(os.Stderr, "evidence:", err)
 	}
 	os.RemoveAll(c.Scratch)
